@@ -17,6 +17,6 @@ run_demo; echo "demo without patch: rc=$? (expect 0)"
 (cd $WT && go build ./... && go test -vet=off -count=1 ./... >/dev/null 2>&1); echo "suite with patch: rc=$? (expect 0)"
 run_demo; echo "demo with patch: rc=$? (expect non-zero)"
 for P in "$@"; do
-  (cd /verif && VERIF_REPO=$WT ./check $P --tier quick 2>/dev/null | grep -E "^(VIOLATION|OK)" | head -3 | sed "s/^/[$P] /")
+  (cd ${VERIF_TRIAL:-/verif} && VERIF_REPO=$WT ./check $P --tier quick 2>/dev/null | grep -E "^(VIOLATION|OK)" | head -3 | sed "s/^/[$P] /")
 done
 git -C /repo worktree remove --force $WT
